@@ -257,6 +257,14 @@ def _check_wide(n):
                     wz = sum(p * (-1) ** sum(k[s_] for s_ in S) for k, p in want.items())
                     if abs(ez - wz) > 1e-10:
                         return False, f"n={n}: <Z_{S}> of amplitude indices {sorted(amps)} is {ez}, the bits of the indices give {wz}"
+            # the flipped view: reversing the qubit order of BOTH the state and a multi-term operator leaves the expectation value unchanged
+            from orquestra.quantum.wavefunction import flip_wavefunction
+            multi = PauliSum([PauliTerm({0: "Z"}, 1.0), PauliTerm({1: "Z"}, -0.7), PauliTerm({0: "Z", n - 1: "Z"}, 0.4), PauliTerm({n // 2: "Z"}, 2.0), PauliTerm("I0", 0.3)])
+            e_direct = get_expectation_value(multi, wf)
+            e_flipped = get_expectation_value(multi, flip_wavefunction(wf), reverse_operator=True)
+            w_multi = sum(p * (1.0 * (-1) ** k[0] - 0.7 * (-1) ** k[1] + 0.4 * (-1) ** (k[0] + k[n - 1]) + 2.0 * (-1) ** k[n // 2] + 0.3) for k, p in want.items())
+            if abs(e_direct - w_multi) > 1e-9 or abs(e_flipped - w_multi) > 1e-9:
+                return False, f"n={n}: expectation of a multi-term Z operator on amplitude indices {sorted(amps)}: direct {e_direct}, flipped state with reversed operator {e_flipped}, from the bits {w_multi}"
             for n_samples in (3, N + 5):
                 samples = sample_from_wavefunction(wf, n_samples, 11)
                 if len(samples) != n_samples or any((not isinstance(s_, tuple)) or len(s_) != n or s_ not in want for s_ in samples):
